@@ -170,6 +170,18 @@ func Main(prop string) {
 			i, n = 0, 1
 		}
 		CondCases(lim, maxN, i, n, func(c Case) { emit(w, c) })
+	case strings.HasPrefix(o.Mode, "dest"):
+		// "dest:<i>:<n>": the i-th of n shards of the exhaustive destination reply enumeration
+		maxM := 4
+		if o.Tier == "thorough" {
+			maxM = 5
+		}
+		i, n := 0, 1
+		fmt.Sscanf(o.Mode, "dest:%d:%d", &i, &n)
+		if n < 1 || i < 0 || i >= n {
+			i, n = 0, 1
+		}
+		DestCases(lim, maxM, i, n, func(c Case) { emit(w, c) })
 	default:
 		root := hx.NewRand(o.Seed)
 		for i := 0; i < o.N; i++ {
